@@ -267,7 +267,7 @@ def target_cxxflags(variant, extra_defs=()):
     return fl
 
 
-def build_target(name, variant, sources, refs=(), link_extra=(), extra_defs=(), csources=(), fuzzer=False, quiet=False):
+def build_target(name, variant, sources, refs=(), link_extra=(), extra_defs=(), csources=(), fuzzer=False, quiet=False, fastsources=()):
     """Build target binary /verif/build/bin/<name>.<variant>.
 
     sources: C++ files (relative to /verif), csources: C files compiled with the
@@ -290,7 +290,8 @@ def build_target(name, variant, sources, refs=(), link_extra=(), extra_defs=(), 
     cxxflags = target_cxxflags(variant, defs)
     srcs = [os.path.join(VERIF, s) for s in sources] + [os.path.join(ENGINE, "driver.cpp")]
     csrcs = [os.path.join(VERIF, s) for s in csources]
-    key = _sha(libkey, *refkeys, engine_hash(), _files_hash(srcs + csrcs), headers_hash(REPO),
+    fsrcs = [os.path.join(VERIF, s) for s in fastsources]   # harness-only helpers: -O2, no sanitizers
+    key = _sha(libkey, *refkeys, engine_hash(), _files_hash(srcs + csrcs + fsrcs), headers_hash(REPO),
                " ".join(cxxflags), " ".join(link_extra), name,
                _files_hash([os.path.join(TARGETS, f) for f in os.listdir(TARGETS) if f.endswith((".hpp", ".h"))]))
     keyp = out + ".key"
@@ -312,6 +313,10 @@ def build_target(name, variant, sources, refs=(), link_extra=(), extra_defs=(), 
             o = out + ".c%d.o" % i
             tmpo.append(o)
             jobs.append([d["cc"]] + cflags + ["-c", s, "-o", o])
+        for i, s in enumerate(fsrcs):
+            o = out + ".f%d.o" % i
+            tmpo.append(o)
+            jobs.append([cxx, "-std=gnu++17", "-O2", "-w", "-I" + ENGINE, "-I" + TARGETS, "-c", s, "-o", o])
         with ThreadPoolExecutor(JOBS) as ex:
             list(ex.map(_run, jobs))
         link = [cxx] + [f for f in d["opt"] if f.startswith("-fsanitize") and "fuzzer" not in f] + tmpo + [lib] + reflibs + list(link_extra)
